@@ -515,7 +515,9 @@ fn actor_stream(actor: &str, probe: &Probe) -> Option<u64> {
 pub fn run_script(ops: &[POp], h3_is_server: bool, split: bool, nreq_client: usize, seed: u64) -> Outcome {
     let mut rng = Rng::new(seed);
     let mut cfg = NetCfg::random(&mut rng);
-    cfg.backpressure = false;
+    // what h3 writes (SETTINGS, responses, requests, grease) goes out against back-pressure in a
+    // third of the scripts: partial writes inside frame headers and payloads
+    cfg.backpressure = rng.chance(1, 3);
     cfg.ordered_accept = rng.bool();
     if ops.iter().any(|o| matches!(o, POp::Write { data, .. } if data.len() > 3000)) {
         // h3's BufList::remaining is linear in the number of chunks; tiny chunks of a big write make
